@@ -28,33 +28,44 @@ FUNCTIONS = [
 
 
 # ---------------------------------------------------------------- gate
-def gate_body(t, admit, with_filter):
+def gate_body(t, admit, admit2, with_filter):
+    """Two DIFFERENT code objects that share file name and function name (e.g. Reader.run and
+    Writer.run) with independent filter verdicts, called under one tracer in either order."""
     logger = ListLogger()
-    calls = []
-
-    def code_filter(code):
-        calls.append(code)
-        return admit
-
-    tracer = CallTracer(logger, 0, code_filter if with_filter else None, None)
     name = (None, "trace_types")[t.take(2)]
     func = (F.mod_func, F.gen_func)[t.take(2)]
-    fr = FakeFrame(CodeView(func.__code__, name=name), {n: 1 for n in func.__code__.co_varnames[: func.__code__.co_argcount]})
-    tracer.cache[fr.f_code] = func
-    tracer(fr, "call", None)
-    started = fr in tracer.traces
-    fr.f_code.co_code = [sorted(RETURN_OPS)[0]]
-    tracer(fr, "return", 1)
-    recorded = len(logger.traces) == 1
-    want = (name != "trace_types") and (admit or not with_filter)
-    if with_filter and name != "trace_types" and len(calls) != 2:
-        return check(False, "the filter was not consulted for both events")
-    if started != want or recorded != want or (not want and (tracer.traces or logger.traces)):
-        return check(False, lambda: f"admit={bool(admit)} with_filter={bool(with_filter)} co_name={fr.f_code.co_name}: started={started} recorded={recorded}, expected {want}")
+    cv1, cv2 = CodeView(func.__code__, name=name), CodeView(func.__code__, name=name)
+    verdict = {id(cv1): admit, id(cv2): admit2}
+
+    def code_filter(code):
+        return verdict[id(code)]
+
+    tracer = CallTracer(logger, 0, code_filter if with_filter else None, None)
+    order = (cv1, cv2) if t.take(2) == 0 else (cv2, cv1)
+    nparams = func.__code__.co_argcount
+    recorded = {}
+    for cv in order:
+        fr = FakeFrame(cv, {n: 1 for n in func.__code__.co_varnames[:nparams]})
+        tracer.cache[cv] = func
+        before = len(logger.traces)
+        cv.co_code = [0]
+        tracer(fr, "call", None)
+        started = fr in tracer.traces
+        cv.co_code = [sorted(RETURN_OPS)[0]]
+        tracer(fr, "return", 1)
+        recorded[id(cv)] = (started, len(logger.traces) == before + 1)
+    for cv, adm in ((cv1, admit), (cv2, admit2)):
+        want = (name != "trace_types") and (adm or not with_filter)
+        started, rec = recorded[id(cv)]
+        if started != want or rec != want:
+            return check(False, lambda: f"verdicts ({bool(admit)}, {bool(admit2)}) with_filter={bool(with_filter)} co_name={cv.co_name} order={'12' if order[0] is cv1 else '21'}: "
+                                        f"code #{1 if cv is cv1 else 2} started={started} recorded={rec}, expected {want}")
+    if tracer.traces:
+        return check(False, "per-call state left behind")
     return check(True)
 
 
-tape_harness("gate", [("t", 2)], {"admit": "bool", "with_filter": "bool"}, gate_body, globals())
+tape_harness("gate", [("t", 3)], {"admit": "bool", "admit2": "bool", "with_filter": "bool"}, gate_body, globals())
 
 
 # ---------------------------------------------------------------- __main__ exclusion
@@ -111,13 +122,31 @@ SYNTHETIC = ("", "<string>", "<frozen importlib._bootstrap>", "<stdin>")
 ALLOW = ("pkg", "mod", "json", "proj", "site-packages", "nomatch", "")
 
 
+_LINK = None
+
+
+def _symlinked_root():
+    """A symbolic link (created once per process, under the system temp dir) to a library root."""
+    global _LINK
+    if _LINK is None:
+        import atexit
+        import shutil
+        import tempfile
+
+        d = tempfile.mkdtemp(prefix="verif_c17_")
+        os.symlink(str(MC.LIB_PATHS[0]), os.path.join(d, "liblink"))
+        atexit.register(shutil.rmtree, d, True)
+        _LINK = os.path.join(os.path.realpath(d), "liblink")
+    return _LINK
+
+
 def _roots():
     roots = [str(p) for p in MC.LIB_PATHS]
     extra = []
     for r in roots:
         extra.append(r + "-extra")  # textual extension of a library root: NOT inside it
         extra.append(os.path.dirname(r))  # the parent of a library root
-    return roots, extra + ["/tmp/verif_c17_project", "/srv"]
+    return roots, extra + ["/tmp/verif_c17_project", "/srv", _symlinked_root()]
 
 
 def _split(path):
@@ -128,6 +157,9 @@ def reference_filter(filename, allow):
     """Independent, string-based statement of the property."""
     if not filename or filename[0] == "<":
         return False
+    link = _symlinked_root()
+    if filename == link or filename.startswith(link + "/"):
+        filename = str(MC.LIB_PATHS[0]) + filename[len(link):]  # what the link resolves to
     parts = _split(filename)
     lib_roots = [_split(r) for r in _roots()[0]]
     under = None
